@@ -102,7 +102,65 @@ public:
         std::fclose(f);
         return true;
     }
+    // the same file written with raw system calls and a stack buffer only: usable from a signal handler after heap corruption
+    bool save_raw(const char* path, int sig) const;
 };
+
+} // namespace vf
+#include <fcntl.h>
+#include <unistd.h>
+namespace vf {
+inline bool Draw::save_raw(const char* path, int sig) const
+{
+    int fd = ::open(path, O_WRONLY | O_CREAT | O_TRUNC, 0644);
+    if (fd < 0)
+        return false;
+    char buf[512];
+    auto put_long = [](char* p, long v) -> char* {
+        char tmp[24];
+        int k = 0;
+        unsigned long u = v < 0 ? 0UL - (unsigned long) v : (unsigned long) v;
+        do
+        {
+            tmp[k++] = (char) ('0' + u % 10);
+            u /= 10;
+        } while (u);
+        if (v < 0)
+            *p++ = '-';
+        while (k)
+            *p++ = tmp[--k];
+        return p;
+    };
+    {
+        const char* h = "# in-flight case at signal ";
+        char* p = buf;
+        for (const char* q = h; *q; q++)
+            *p++ = *q;
+        p = put_long(p, sig);
+        *p++ = '\n';
+        if (::write(fd, buf, (size_t) (p - buf)) < 0)
+            return false;
+    }
+    const Entry* e = log.data();
+    const size_t cnt = log.size();
+    for (size_t i = 0; i < cnt; i++)
+    {
+        char* p = buf;
+        for (const char* q = e[i].label; q && *q && p < buf + 300; q++)
+            *p++ = (*q == ' ' || *q == '\n') ? '_' : *q;
+        *p++ = ' ';
+        p = put_long(p, e[i].lo);
+        *p++ = ' ';
+        p = put_long(p, e[i].hi);
+        *p++ = ' ';
+        p = put_long(p, e[i].v);
+        *p++ = '\n';
+        if (::write(fd, buf, (size_t) (p - buf)) < 0)
+            break;
+    }
+    ::close(fd);
+    return true;
+}
 
 // Replays a saved log and bypasses every engine. Entries are positional; a
 // value outside the currently requested range (stale tape) falls back to lo.
